@@ -20,7 +20,7 @@ func c05(c *eng.Ctx, r *eng.Report) {
 		"R5.3 start-up runs the recovery before the head's state is opened, recovery re-runs remove() for every mark it finds before erasing the mark, and mark writers/readers use the same keys; " +
 		"R5.4 the state commit (account trie then node database, both error-checked) precedes the head update; " +
 		"R5.5 every removeFromCommonAncestor call is guarded by the chain-weight comparison with the right operand roles (coming vs local, local competitor taken at the fork point); " +
-		"R5.6 transactions are marked executed before the head moves and unmarked on every successful removal; R5.7 block verification precedes insertion and checkStates compares state, receipt and tx roots. " +
+		"R5.6 transactions are marked executed before the head moves and unmarked on every successful removal, UnMarkExecuted deletes the executed record before it re-adds the transaction, and the pending container takes the re-added transaction unless it is full; R5.8 the header cache that height lookups read is evicted by remove(); R5.7 block verification precedes insertion and checkStates compares state, receipt and tx roots. " +
 		"Not decided: that every intermediate crash state is repaired (needs fault injection), reachability of the head from genesis as a data invariant, disk errors."
 	r.Assume = []string{"LevelDB single-key writes are atomic", "blockChain methods run under the chain lock (not checked here)"}
 	c05Brackets(c, r)
@@ -29,6 +29,10 @@ func c05(c *eng.Ctx, r *eng.Report) {
 	c05StateBeforeHead(c, r)
 	c05ForkChoice(c, r)
 	c05Verify(c, r)
+	c05HeaderCache(c, r)
+	// the second half of R5.6: what UnMarkExecuted does with a removed block's transactions (shared with C17)
+	c17UnmarkAs(c, r, "R5.6")
+	c17PushTotalAs(c, r, "R5.6")
 }
 
 func callsNamed(fn *ssa.Function, suffix ...string) []*ssa.Call {
@@ -563,5 +567,65 @@ func c05Verify(c *eng.Ctx, r *eng.Report) {
 			}
 		}
 		r.Check(len(roots) == 3, rule, "checkStates:three-roots", c.Pos(cs.Pos()), "recomputed state, receipt and transaction roots are each compared with the header", fmt.Sprintf("checkStates compares only %v with the header", roots))
+	}
+}
+
+// c05HeaderCache: the LRU in front of the height index answers as the index
+// does only if remove() evicts the removed block's height; otherwise a lookup
+// by height keeps returning a block that is no longer on the chain.
+func c05HeaderCache(c *eng.Ctx, r *eng.Report) {
+	const rule = "R5.8"
+	r.Min(rule, 1)
+	rm := c.Func("core", "(*blockChain).remove")
+	if !r.Anchor(rm != nil, rule, "(*blockChain).remove") {
+		return
+	}
+	// caches the chain answers height/hash lookups from
+	used := map[string]token.Pos{}
+	for _, fn := range c.PkgFuncs("core") {
+		if c.IsTestFunc(fn) || fn.Signature.Recv() == nil || !strings.HasSuffix(eng.ShortType(fn.Signature.Recv().Type()), "core.blockChain") {
+			continue
+		}
+		for _, h := range eng.ScanNondeterminism(fn) {
+			if h.Kind != "cache" {
+				continue
+			}
+			m := ""
+			if f := h.Instr.(*ssa.Call).Call.StaticCallee(); f != nil {
+				m = f.Name()
+			}
+			if (m == "Get" || m == "Peek") && strings.HasSuffix(h.Recv, ".topBlocks") {
+				used[h.Recv] = h.Pos
+			}
+		}
+	}
+	// evictions performed by remove (directly or in a helper of the same type it calls)
+	evicted := map[string]bool{}
+	cone := c.ConeOf([]*ssa.Function{rm}, func(fn *ssa.Function) bool {
+		return fn.Signature.Recv() != nil && strings.HasSuffix(eng.ShortType(fn.Signature.Recv().Type()), "core.blockChain")
+	})
+	for _, fn := range cone.Sorted() {
+		if fn.Blocks == nil || !strings.HasSuffix(eng.FuncPkgPath(fn), "/src/core") {
+			continue
+		}
+		for _, h := range eng.ScanNondeterminism(fn) {
+			if h.Kind != "cache" {
+				continue
+			}
+			call := h.Instr.(*ssa.Call)
+			if f := call.Call.StaticCallee(); f != nil && (f.Name() == "Remove" || f.Name() == "Purge") {
+				if f.Name() == "Purge" || strings.Contains(strings.ToLower(eng.Desc(call.Call.Args[1])), "height") {
+					evicted[h.Recv] = true
+				}
+			}
+		}
+	}
+	n := 0
+	for recv, pos := range used {
+		n++
+		r.Check(evicted[recv], rule, "cache:"+recv, c.Pos(pos), "remove() evicts the removed height from the cache lookups read", "lookups by height are answered from "+recv+" but blockChain.remove no longer evicts the removed block's height from it: after a reorg to a chain that has no block at that height, GetBlockHash/QueryBlockHeaderByHeight keep returning the removed block although the height index was cleaned")
+	}
+	if n == 0 {
+		r.Pass(rule, "cache:none", "", "no header cache is read by height lookups")
 	}
 }
